@@ -294,6 +294,7 @@ fn random(rng: &mut Rng) -> Scenario {
 pub fn explore(seed: u64, n: usize) -> (usize, Vec<(Scenario, Verdict)>) {
     let mut rng = Rng(seed.wrapping_mul(0x9E3779B97F4A7C15) | 1);
     let mut bad = Vec::new();
+    let mut per_oracle: std::collections::HashMap<String, usize> = std::collections::HashMap::new();
     let mut total = 0;
     let mut all = curated();
     for _ in 0..n { all.push(random(&mut rng)); }
@@ -305,7 +306,20 @@ pub fn explore(seed: u64, n: usize) -> (usize, Vec<(Scenario, Verdict)>) {
         let sc2 = sc.clone();
         std::thread::spawn(move || { let _ = tx.send(run_scenario(&sc2)); });
         match rx.recv_timeout(Duration::from_secs(10)) {
-            Ok(vd) => { if !vd.violations.is_empty() { bad.push((sc, vd)); if bad.len() >= 5 { break; } } }
+            Ok(vd) => {
+                // keep up to 5 failing schedules PER ORACLE (a change that trips one oracle early must not mask another)
+                if !vd.violations.is_empty() {
+                    let mut keep = false;
+                    for x in &vd.violations {
+                        let o = x.split(' ').next().unwrap_or("").to_string();
+                        let c = per_oracle.entry(o).or_insert(0usize);
+                        if *c < 5 { keep = true; }
+                        *c += 1;
+                    }
+                    if keep { bad.push((sc, vd)); }
+                    if bad.len() >= 40 { break; }
+                }
+            }
             Err(_) => {
                 bad.push((sc, Verdict { violations: vec!["O11 the schedule never terminates: an operation or the actor spins/hangs forever (10 s real-time watchdog on a paused-clock run)".into()], trace: vec![] }));
                 break;
